@@ -28,12 +28,26 @@ Oracles    : implementation only, judged by harness/lib/sqlref.py (plain Python,
                histories  half of the e2e tables are built by a random history (transactions appending 1-4 files, deleting
                           part of a manifest / whole manifests / across manifests, both at once, expiry, aborted transactions,
                           garbage collection, reload); expected rows = rows of the files live by the harness' own list semantics
-               corpus     the hand-confirmed failing inputs (F-C12 NaN pushdown, malformed filter on an empty table)
-Findings   : two defects of the unchanged tree (findings/C12-unchanged-tree.log, findings/C12-replay-*.json), both repaired on
+               textbounds per length boundary (1 ... 4096 characters) a table of single-valued files whose text values have L-1 / L /
+                          L+1 characters closed by a character of every plane (U+10000, an emoji, U+10FFFF, U+FFFF, U+FFFD, DEL, NUL ...),
+                          filled with 1- / 2- / 4-byte characters; every value looked up with == and one more operator
+               corpus     the hand-confirmed failing inputs (F-C12 NaN pushdown, malformed filter on an empty table, a data file
+                          without rows, text as value set / between argument, the flag False)
+             Every table generator also produces data files WITHOUT rows (append_records([]) / append_data([]) commit one), the
+             filter generators columns the table does not have, str / bytes where a value set or a (lo, hi) pair is expected,
+             and ('is_null', False); the long-text domains contain values at and around random length boundaries with astral
+             tails, and the literals around a text value include every truncation of it, closed and not closed by U+FFFF / U+10FFFF.
+Findings   : five defects of the unchanged tree (findings/C12-*unchanged-tree.log, findings/C12-replay-*.json), all repaired on
              the library branch: (1) scan(filter, verify_checksums=False) pushed the filter into pq.read_table, whose row-group
              statistics ignore NaN; (2) scan() accepted malformed filters on an empty table and scan_batches() skipped building
-             the expression when every file was pruned.  Open (modelled, C12_api_agree_empty_projection_refuted, excluded from
+             the expression when every file was pruned; (3) on a data file WITHOUT rows scan_batches / iter_records evaluated
+             nothing and returned [] where scan() raised on a filter pyarrow cannot bind (unknown column, literal of the wrong
+             type); (4) a str / bytes given as in / not_in value set or as between argument was iterated / unpacked character by
+             character; (5) the flag of is_null / is_not_null was ignored: ('is_null', False) selected the NULL rows.
+             Open (modelled, C12_api_agree_empty_projection_refuted, excluded from
              the oracle): scan(columns=[]) returns no rows (pa.concat_tables) while the batch APIs yield one {} per row.
+             Reading: a NULL inside an in / not_in value set is dropped (documented contract); for NOT IN that is not the SQL
+             standard's UNKNOWN -- C12_not_in_nulls_dropped / C12_not_in_null_differs_from_sql state the difference exactly.
 Tie        : correspondence of every hand-written model piece with the real code:
                prims      every cexpr constructor evaluated by real pyarrow     vs Model/Filter.v eval3
                parse      filters.parse_filter_dict                              vs parse (uses Gen tables)
@@ -87,8 +101,9 @@ def val_unjson(j):
 
 LEVEL = "proof"
 THEOREMS = ["C12_compile_correct", "C12_compile_total", "C12_conj", "C12_api_agree", "C12_api_sql", "C12_api_sql_sound_bounds", "C12_text_bounds_conservative", "C12_prefix_lower_bound",
-            "C12_prefix_upper_bound_refuted", "C12_typed_evaluates", "C12_refused_raises",
-            "C12_strict", "C12_strict_everywhere", "C12_operator_faithful", "C12_operator_table", "C12_special_keys", "C12_project_after",
+            "C12_prefix_upper_bound_refuted", "C12_typed_evaluates", "C12_refused_raises", "C12_zero_row_file_check_needed",
+            "C12_strict", "C12_strict_value_set", "C12_strict_everywhere", "C12_operator_faithful", "C12_operator_table", "C12_special_keys",
+            "C12_project_after", "C12_not_in_nulls_dropped", "C12_not_in_null_differs_from_sql",
             "C12_api_agree_empty_projection_refuted",
             "C12_manifest_roundtrip", "C12_rewrite_decision", "C12_history_view", "C12_history_files", "C12_history_sql"]
 GEN_FILES = ["GenFilter.v", "GenFilterConst.v", "GenPrune.v", "GenBound.v", "GenManifest.v"]
@@ -99,9 +114,15 @@ REQ_HIST = REQ + ["DS.Model.BoundPrim", "DS.Gen.GenBound", "DS.Model.Bound", "DS
 MANIFEST_ENTRY = {
     "level_text": "C12_compile_correct / C12_conj (the compiled expression is TRUE exactly on the SQL-TRUE rows), C12_api_agree "
                   "(scan verify on/off, scan_batches with any batching, iter_records return the same rows or the same error for "
-                  "every table, layout, projection and filter), C12_api_sql (that answer is project cols (filter sql (concat files)), "
-                  "pruning included), C12_strict / C12_strict_everywhere / C12_operator_faithful / C12_operator_table (malformed "
-                  "filters raise in every API, accepted operators mean what the table says), C12_project_after, and for tables "
+                  "every table, layout -- data files without rows included --, projection and filter), C12_api_sql (that answer is "
+                  "project cols (filter sql (concat files)), pruning included), C12_refused_raises (an expression pyarrow refuses to "
+                  "bind, or refuses on a row, raises in EVERY API; C12_zero_row_file_check_needed: why the batch readers must show "
+                  "a file without rows to pyarrow), C12_strict (the parser fails EXACTLY on the conditions outside the documented "
+                  "language -- unknown / non-string operator, {c: None}, a str as value set or as between argument, the flag "
+                  "False -- and otherwise returns exactly their independent meaning), C12_strict_value_set, C12_strict_everywhere, "
+                  "C12_operator_faithful / C12_operator_table (the regenerated tables ARE the independent reading of the "
+                  "spellings), C12_not_in_nulls_dropped / C12_not_in_null_differs_from_sql (NULLs in a NOT IN value set are "
+                  "dropped: exactly how that differs from the SQL standard), C12_project_after, and for tables "
                   "with a HISTORY C12_history_view / C12_history_files / C12_history_sql (after any sequence of committed "
                   "transactions -- multi-file appends, deletes that keep / rewrite / drop manifests, both at once -- the data "
                   "files a scan finds and the bounds pruning reads are those of the flat list semantics, and every API returns "
@@ -116,8 +137,10 @@ MANIFEST_ENTRY = {
                   "snapshot expiry, rolled-back transactions, garbage collection and re-opening modelled as not touching the "
                   "current manifests (exercised by the oracles and the 'history' correspondence); pyarrow primitive semantics as written in Model/Filter.v eval3 "
                   "(validated by the 'prims' correspondence); oracles X (lossy is_in casts), E (literals pyarrow refuses at "
-                  "evaluation), PA (literals pyarrow refuses when building) are universally quantified; errors are modelled per "
-                  "row (a 0-row file never raises in the model); executor.map order preservation for parallel scans; date vs "
+                  "evaluation), B (expressions pyarrow refuses to bind to the files' schema, rows or no rows), PA (literals pyarrow "
+                  "refuses when building) are universally quantified; the three argument guards of parse_filter_dict are pinned by "
+                  "golden AST and modelled by hand (unpack2, flag_true, text_value_set; bytes value sets are outside the Coq value "
+                  "type: oracle only); executor.map order preservation for parallel scans; date vs "
                   "timestamp comparisons (pyarrow casts, Python refuses) are outside the model and covered by the oracle only",
     "technique": "Coq proof over translator-regenerated filter compiler and manifest kernels (induction over transaction histories) "
                  "+ differential correspondence + independent SQL oracle over random and directed table histories",
@@ -191,6 +214,18 @@ Definition E0 (kinds : list (Z * kind)) (e : cexpr) (r : row) : bool :=
   | Cmp _ c (AVal l) => mismatch (lookup c kinds) l
   | IsIn c vals => existsb (mismatch (lookup c kinds)) vals
   | _ => false
+  end.
+(* B0: what pyarrow refuses when it BINDS the expression to the table's schema -- rows or no rows: a column the table
+   does not have, a literal / value set of another kind than the column, a list literal *)
+Fixpoint B0 (kinds : list (Z * kind)) (e : cexpr) : bool :=
+  match e with
+  | Cmp _ c (AVal l) => match lookup c kinds with None => true | Some k => mismatch (Some k) l end
+  | Cmp _ _ (AList _) => true
+  | IsIn c vals => match lookup c kinds with None => true | Some k => existsb (mismatch (Some k)) vals end
+  | IsValid c | IsNull c => match lookup c kinds with None => true | Some _ => false end
+  | Not a => B0 kinds a
+  | And a b => B0 kinds a || B0 kinds b
+  | Scalar _ => false
   end.
 Definition PA0 (a : parg) : bool :=
   match a with
@@ -1474,7 +1509,7 @@ def corr_build(ctx) -> None:
     for _ in range(n):
         kinds = [rng.choice(KINDS), rng.choice(KINDS)]
         cols = ["c0", "c1"]
-        rows = gen_rows(rng, cols, kinds, rng.choice([1, 2, 4, 6]))
+        rows = gen_rows(rng, cols, kinds, rng.choice([0, 1, 2, 4, 6]))      # 0: Table.filter on a table WITHOUT rows (binding only)
         flt = []
         for i in rng.sample([0, 1], rng.choice([1, 1, 2])):
             flt.append((cols[i], gen_model_cond(rng, kinds[i], 0.12, 0.0)))
@@ -1494,7 +1529,7 @@ def corr_build(ctx) -> None:
             ps.append(f"{{| pcol := {colnum[column]}; pop := {opname}; pval := {arg} |}}")
         mrows = "[" + "; ".join(row_coq(dict(r, i=k), colnum) for k, r in enumerate(rows)) + "]"
         kinds_coq = f"[(0, {KIND_COQ[kinds[0]]}); (1, {KIND_COQ[kinds[1]]})]"
-        exprs.append(f"code_of (bind (build PA0 [{'; '.join(ps)}]) (fun ce => bind (apply_filter X0 (E0 {kinds_coq}) ce {mrows}) (fun out => Ok (map idx out)))) []")
+        exprs.append(f"code_of (bind (build PA0 [{'; '.join(ps)}]) (fun ce => bind (apply_filter X0 (E0 {kinds_coq}) (B0 {kinds_coq}) ce {mrows}) (fun out => Ok (map idx out)))) []")
         impl.append(got)
         descs.append({"kinds": kinds, "rows": [{k: val_json(v) for k, v in r.items()} for r in rows], "filter": repr(sqlref.filter_py(flt))})
     model = coqbuild.coq_eval(REQ, exprs, preamble=PREAMBLE)
@@ -1573,13 +1608,15 @@ def corr_pipelines(ctx) -> None:
         # ... and some tables are built by a HISTORY (multi-file transactions, partial deletes that rewrite manifests, mixed
         # transactions, expiry): the model scans the LIVE files of the list semantics with their exact bounds
         # (C12_history_sql), so a bound that a manifest rewrite changed shows as a pruning disagreement too
-        case = gen_table_case(rng, KINDS, 0.0, 0.0, max_files=3, long_text=0.2, long_dom=MODEL_LONG_TEXT, history=0.35, max_steps=4)
+        case = gen_table_case(rng, KINDS, 0.0, 0.0, max_files=3, long_text=0.2, long_dom=MODEL_LONG_TEXT, history=0.35, max_steps=4, zero_rows=0.2)
         if case.get("history") is not None:
             with_history += 1
         reqs = []
         for _ in range(nfilters):
             flt = []
             n = rng.choice([0, 1, 1, 2, 2, 3])
+            if rng.random() < 0.05:
+                flt.append(("zz", gen_model_cond(rng, "long", 0.0, 0.0)))      # a column the table does not have (B0 refuses)
             for i in rng.sample(range(len(case["cols"])), min(n, len(case["cols"]))):
                 ext = file_extremes(case, case["cols"][i]) if col_dom(case, i) is MODEL_LONG_TEXT and rng.random() < 0.6 else []
                 if ext:
@@ -1620,7 +1657,7 @@ def corr_pipelines(ctx) -> None:
         kinds_coq = "[" + "; ".join(f"({colnum[c]}, {KIND_COQ[k]})" for c, k in zip(cols, kinds)) + "]"
         for (flt, columns), (_ph, gots) in zip(reqs, val):
             cols_coq = "None" if columns is None else "(Some [" + "; ".join(str(colnum[c]) for c in columns) + "])"
-            common = f"X0 (E0 {kinds_coq}) PA0 {sch} {ids} (fun f => file_bounds {ids} (frows f))"
+            common = f"X0 (E0 {kinds_coq}) (B0 {kinds_coq}) PA0 {sch} {ids} (fun f => file_bounds {ids} (frows f))"
             fl = filter_coq(flt, colnum)
             model_terms = {
                 "scan": f"code_of (scan_table {common} true {cols_coq} {fl} {files_coq}) []",
@@ -1764,13 +1801,14 @@ def run(ctx) -> None:
         "parse_filter_dict / _parse_op / to_pyarrow_compute_expression pinned by golden AST)",
         "pyarrow primitive semantics as written in Model/Filter.v eval3 / select / select_lenient (validated by the 'prims', 'build' and "
         "'pipelines' correspondences against the installed pyarrow)",
-        "oracles X, E, PA are universally quantified in every theorem (nothing assumed about lossy is_in casts, refused literals)",
+        "oracles X, E, B, PA are universally quantified in every theorem (nothing assumed about lossy is_in casts, refused literals)",
         "translator/gen_manifest.py (bound expressions of create_manifest_file / read_manifest_file, survivor test and keep / rewrite / "
         "drop decision of _commit_file_ops; loop / call structure around them checked, fail-closed), translator/gen_bound.py",
         "harness: harness/props/c12.py, harness/lib/c12_hist.py (histories and their list semantics), harness/lib/sqlref.py (independent SQL evaluator), harness/lib/coqbuild.py",
     ]
     ctx.assumptions += [
-        "errors are modelled per row: a file or batch with 0 rows never raises in the model (the library cannot write 0-row files)",
+        "pyarrow refuses an expression either when binding it to the table's schema (oracle B: independent of the rows, also on a table without rows) "
+        "or on a row (oracle E); all files of a table share the schema, so B does not depend on the file",
         "scan(parallel=N) is executor.map over the same per-file read (order preserving); covered by the oracle and the pipelines correspondence, not by a separate model definition",
         "all files of a table share the parquet schema `sch` (C11); projections are judged against it",
         "date vs timestamp comparisons (pyarrow casts, Python refuses) and inexact literals on float32 columns are outside the model; the oracle demands cross-API agreement there",
